@@ -61,6 +61,11 @@ CLAIMS["C18"] = dict(
     note="contextvars semantics assumed (each asyncio task has its own binding; dicts shared by reference). One genuine defect (first start / last-written end instead of min/max, None pushed into the parent) was found by this check and repaired by a fix: commit. RequestTiming/Composite not yet under contract.",
     design="§4 C18",
 )
+CLAIMS["C13"] = dict(
+    text="Proofs over maps as (domain, value) arrays: ElasticsearchInstaller.variables and DockerProvisioner.__init__ give Rally's own node variables whatever the composed car defines and pass every other car variable through unchanged (forall keys); CarLoader.load_car lets command-line car parameters override the car's [variables] section and takes everything else from it; provisioner.cleanup removes nothing under preserve-install and otherwise only the installation directory and the data paths, each at most once (ghost trace of rmtree events, loop invariant).",
+    note="configparser section copying, os.path, str() and str.join are assumed/uninterpreted; team.load_car's car-order loop and _apply_config template mirroring are not yet under contract (not_decided).",
+    design="§4 C13",
+)
 NA_DEFAULT = "check not built yet in this revision (the framework is under construction; see DESIGN.md §6b build order)"
 checks = []
 for p in props:
